@@ -1008,4 +1008,52 @@ MUTANTS = [
     Mutant("refactor-temporaries", BOX, "    fractions = coord_to_fraction(coord, box)\n    fractions_rem = fractions % 1\n    return fraction_to_coord(fractions_rem, box)", "    return fraction_to_coord(coord_to_fraction(coord, box) % 1, box)", "R4.move-inside", kind="silent"),
     Mutant("refactor-sum-function", UTL, "return (v1 * v2).sum(axis=-1)", "return np.sum(v2 * v1, axis=-1)", "R2.vector-dot", kind="silent"),
     Mutant("principal-no-reflection-fix", TRF, "            v[:, -1] *= -1", "            pass", "R5.principal-proper"),
+    # one seeded fault per rule that had none
+    Mutant("index-call-drops-box", GEO, "    return function(*coord_list, box)", "    return function(*coord_list)", "R1.call"),
+    Mutant("column-guard-only-too-few", GEO, "    if indices.shape[-1] != expected_amount:", "    if indices.shape[-1] < expected_amount:", "R1.column-guard"),
+    Mutant("index-angle-drops-kwargs", GEO, "_call_non_index_function(angle, 3, *args, **kwargs)", "_call_non_index_function(angle, 3, *args)", "R1.index-args", qualname="index_angle"),
+    Mutant("angle-self-dot", GEO, "return np.arccos(vector_dot(v1, v2))", "return np.arccos(vector_dot(v1, v1))", "R2.angle-def"),
+    Mutant("angle-supplement", GEO, "return np.arccos(vector_dot(v1, v2))", "return np.arccos(-vector_dot(v1, v2))", "R2.angle-def"),
+    Mutant("backbone-psi-from-phi-table", GEO, "        coord_for_psi[..., 2],\n", "        coord_for_phi[..., 2],\n", "R2.backbone-bind"),
+    Mutant("backbone-phi-slots-swapped", GEO, "        coord_for_phi[..., 1],\n        coord_for_phi[..., 2],\n", "        coord_for_phi[..., 2],\n        coord_for_phi[..., 1],\n", "R2.backbone-call"),
+    Mutant("backbone-phi-source-range", GEO, "coord_for_phi[..., 1:,   :, 0] =  coord_c[..., 0:-1, :]", "coord_for_phi[..., 1:,   :, 0] =  coord_c[..., 0:,   :]", "R2.backbone-length"),
+    Mutant("backbone-return-order", GEO, "    return phi, psi, omg", "    return phi, omg, psi", "R2.backbone-return"),
+    Mutant("dihedral-middle-bond-reversed", GEO, "v2 = displacement(atoms2, atoms3, box)", "v2 = displacement(atoms3, atoms2, box)", "R2.dihedral-chain"),
+    Mutant("distance-squared", GEO, "return np.sqrt(vector_dot(diff, diff))", "return vector_dot(diff, diff)", "R2.distance-def"),
+    Mutant("norm-vector-axis", UTL, "factor = np.linalg.norm(v, axis=-1)", "factor = np.linalg.norm(v, axis=0)", "R2.norm-vector"),
+    Mutant("norm-vector-multiplies", UTL, "        v /= factor[..., np.newaxis]", "        v *= factor[..., np.newaxis]", "R2.norm-vector"),
+    Mutant("vector-dot-axis", UTL, "return (v1 * v2).sum(axis=-1)", "return (v1 * v2).sum(axis=-2)", "R2.vector-dot"),
+    Mutant("orthogonal-convert-before-shift", GEO, "    fractions[fractions > 0.5] -= 1\n    disp[:] = fraction_to_coord(fractions, box)", "    disp[:] = fraction_to_coord(fractions, box)\n    fractions[fractions > 0.5] -= 1", "R3.orthogonal-result"),
+    Mutant("rank-3-branch-mistyped", GEO, "        elif fractions.ndim == 3:", "        elif fractions.ndim == 4:", "R3.rank-dispatch"),
+    Mutant("rank1-not-unwrapped", GEO, "            # Transform back\n            disp = disp[0]\n", "", "R3.rank1-unwrap"),
+    Mutant("box-result-discarded", GEO, "        return disp\n", "        return diff\n", "R3.returns"),
+    Mutant("triclinic-diffs-wrong-conversion", GEO, "diffs = fraction_to_coord(fractions, box)", "diffs = coord_to_fraction(fractions, box)", "R3.triclinic-candidates"),
+    Mutant("triclinic-shift-subtracted", GEO, "shifted_diffs = diffs[:, np.newaxis, :] + periodic_shift[np.newaxis, :, :]", "shifted_diffs = diffs[:, np.newaxis, :] - periodic_shift[np.newaxis, :, :]", "R3.triclinic-candidates"),
+    Mutant("move-inside-unwrapped", BOX, "return fraction_to_coord(fractions_rem, box)", "return fraction_to_coord(fractions, box)", "R4.move-inside"),
+    Mutant("remove-pbc-in-place", BOX, "    new_atoms = atoms.copy()\n", "    new_atoms = atoms\n", "R4.remove-pbc-copy"),
+    Mutant("remove-pbc-whole-structure", BOX, "remove_pbc_from_coord(\n            new_atoms.coord[..., mask, :], atoms.box\n        )", "remove_pbc_from_coord(\n            new_atoms.coord, atoms.box\n        )[..., mask, :]", "R4.remove-pbc-molecule"),
+    Mutant("repeat-amount-unchecked", BOX, "    if not isinstance(amount, Integral):\n        raise TypeError(\"The amount must be an integer\")\n", "", "R4.repeat-integral"),
+    Mutant("repeat-lattice-axes-swapped", BOX, "box * np.array([i, j, k])[:, np.newaxis]", "box * np.array([i, k, j])[:, np.newaxis]", "R4.repeat-lattice"),
+    Mutant("repeat-range-off-by-one", BOX, "            for k in range(-amount, amount + 1):", "            for k in range(-amount, amount):", "R4.repeat-range"),
+    Mutant("unitcell-matrix-row-b", BOX, "[[a_x, 0, 0], [b_x, b_y, 0], [c_x, c_y, c_z]]", "[[a_x, 0, 0], [b_y, b_x, 0], [c_x, c_y, c_z]]", "R4.unitcell-matrix"),
+    Mutant("unitcell-matrix-columns", BOX, "[[a_x, 0, 0], [b_x, b_y, 0], [c_x, c_y, c_z]]", "[[a_x, b_x, c_x], [0, b_y, c_y], [0, 0, c_z]]", "R4.unitcell-matrix"),
+    Mutant("unitcell-return-order", BOX, "    return len_a, len_b, len_c, alpha, beta, gamma", "    return len_a, len_b, len_c, gamma, beta, alpha", "R4.unitcell-order"),
+    Mutant("volume-signed", BOX, "return np.abs(linalg.det(box))", "return linalg.det(box)", "R4.volume"),
+    Mutant("align-origin-not-copied", TRF, "    origin_direction = origin_direction.copy()\n", "", "R5.align-copy"),
+    Mutant("align-rodrigues-denominator", TRF, "(v_c @ v_c) / (1 + cos_a)", "(v_c @ v_c) / (1 - cos_a)", "R5.align-rodrigues"),
+    Mutant("align-cos-self", TRF, "cos_a = vector_dot(origin_direction, target_direction)", "cos_a = vector_dot(origin_direction, origin_direction)", "R5.align-rodrigues"),
+    Mutant("align-target-not-normalised", TRF, "    norm_vector(target_direction)\n", "", "R5.align-unit"),
+    Mutant("rodrigues-diagonal-not-squared", TRF, "                cos_a + icos_a * y**2,", "                cos_a + icos_a * y,", "R5.axis-angle"),
+    Mutant("rodrigues-rows-swapped", TRF, "            [\n                icos_a * x * y + z * sin_a,\n                cos_a + icos_a * y**2,\n                icos_a * y * z - x * sin_a,\n            ],\n            [\n                icos_a * x * z - y * sin_a,\n                icos_a * y * z + x * sin_a,\n                cos_a + icos_a * z**2,\n            ],\n", "            [\n                icos_a * x * z - y * sin_a,\n                icos_a * y * z + x * sin_a,\n                cos_a + icos_a * z**2,\n            ],\n            [\n                icos_a * x * y + z * sin_a,\n                cos_a + icos_a * y**2,\n                icos_a * y * z - x * sin_a,\n            ],\n", "R5.axis-det"),
+    Mutant("rodrigues-wrong-component", TRF, "icos_a * x * z + y * sin_a", "icos_a * x * z + x * sin_a", "R5.axis-fixed"),
+    Mutant("rodrigues-clockwise", TRF, "                icos_a * x * y - z * sin_a,\n                icos_a * x * z + y * sin_a,\n            ],\n            [\n                icos_a * x * y + z * sin_a,\n                cos_a + icos_a * y**2,\n                icos_a * y * z - x * sin_a,\n            ],\n            [\n                icos_a * x * z - y * sin_a,\n                icos_a * y * z + x * sin_a,\n", "                icos_a * x * y + z * sin_a,\n                icos_a * x * z - y * sin_a,\n            ],\n            [\n                icos_a * x * y - z * sin_a,\n                cos_a + icos_a * y**2,\n                icos_a * y * z + x * sin_a,\n            ],\n            [\n                icos_a * x * z + y * sin_a,\n                icos_a * y * z - x * sin_a,\n", "R5.axis-handedness"),
+    Mutant("rodrigues-sin-cos-swapped", TRF, "    sin_a = np.sin(angle)\n    cos_a = np.cos(angle)\n", "    sin_a = np.cos(angle)\n    cos_a = np.sin(angle)\n", "R5.axis-symbols"),
+    Mutant("rodrigues-z-component", TRF, "    z = axis[..., 2]", "    z = axis[..., 1]", "R5.axis-symbols"),
+    Mutant("matrix-rotate-row-convention", UTL, "    v = np.dot(matrix, v.T).T", "    v = np.dot(v, matrix)", "R5.matrix-rotate"),
+    Mutant("align-origin-shift-sign", TRF, "        positions -= origin_position", "        positions += origin_position", "R5.origin-pairing"),
+    Mutant("align-target-shift-before-rotation", TRF, "    positions = matrix_rotate(positions, rot_matrix)\n\n    if target_position is not None:\n        # Transform coordinates to position of the target vector\n        positions += target_position\n", "    if target_position is not None:\n        # Transform coordinates to position of the target vector\n        positions += target_position\n\n    positions = matrix_rotate(positions, rot_matrix)\n", "R5.target-pairing"),
+    Mutant("put-back-in-place", TRF, "        moved_atoms = input_atoms.copy()", "        moved_atoms = input_atoms", "R5.put-back"),
+    Mutant("rot-y-wrong-angle", TRF, "            [cos(angles[1]), 0, sin(angles[1])],", "            [cos(angles[0]), 0, sin(angles[0])],", "R5.rotate-axis"),
+    Mutant("rot-x-reflection", TRF, "            [1, 0, 0],", "            [-1, 0, 0],", "R5.rotate-det"),
+    Mutant("translate-subtracts", TRF, "    positions += vector\n", "    positions -= vector\n", "R5.translate"),
 ]
